@@ -1,6 +1,6 @@
 (* Model/Dispatch.v -- the single extracted entry point.  op numbers: <property>*100 + k *)
 From Coq Require Import ZArith List Bool.
-From B2Z Require Import Base.Prims Base.Sx Model.Partitions Model.IndexParse.
+From B2Z Require Import Base.Prims Base.Sx Model.Partitions Model.IndexParse Model.BinArith Model.Schema Model.Overlap.
 Import ListNotations.
 Open Scope Z_scope.
 
@@ -66,7 +66,73 @@ Definition d_C09 (k : Z) (arg : sx) : sx :=
   | 1 => match as_ZL arg with Some b => match parse_tbi b with Some i => sx_tbi i | None => L [A 0] end | None => err_sx 1 end
   | 2 => match un_csi_file arg with Some f => L [of_Zs (ser_csi f); sx_csi (view_csi f)] | None => err_sx 1 end
   | 3 => match un_tbx_file arg with Some f => L [of_Zs (ser_tbi f); sx_tbi (view_tbi f)] | None => err_sx 1 end
+  | 10 => match arg with L [A l] => A (first_bin l) | _ => err_sx 1 end
+  | 11 => match arg with L [A l] => A (level_size l) | _ => err_sx 1 end
+  | 12 => match arg with L [A d] => A (bin_limit d) | _ => err_sx 1 end
+  | 13 => match arg with L [A d; A b] => of_optZ (level_for_bin d b) | _ => err_sx 1 end
+  | 14 => match arg with L [A ms; A d; A b] => of_optZ (first_locus ms d b) | _ => err_sx 1 end
+  | 15 => match arg with L [A v] => A (file_offset v) | _ => err_sx 1 end
   | _ => err_sx 2
+  end.
+
+(* ---- C10 / C02 : schema ---- *)
+Definition un_field (s : sx) : option vfield :=
+  match s with
+  | L [A cat; A id; A num; A ty; A laa; A mn; bounds] =>
+      match bounds with
+      | L [] => Some {| f_cat := cat; f_id := id; f_number := num; f_type := ty; f_is_laa := negb (laa =? 0);
+                        f_sum := {| s_max_number := mn; s_bounds := None |} |}
+      | L [A lo; A hi] => Some {| f_cat := cat; f_id := id; f_number := num; f_type := ty; f_is_laa := negb (laa =? 0);
+                        f_sum := {| s_max_number := mn; s_bounds := Some (lo, hi) |} |}
+      | _ => None end
+  | _ => None end.
+Definition sx_dim (d : dim) : sx :=
+  match d with
+  | DVariants => L [A 0] | DSamples => L [A 1] | DFilters => L [A 2] | DAlleles => L [A 3]
+  | DAltAlleles => L [A 4] | DGenotypes => L [A 5] | DPloidy => L [A 6] | DField c i => L [A 7; A c; A i] end.
+Definition sx_aname (n : aname) : sx := match n with AFixed k => L [A 0; A k] | AField c i => L [A 1; A c; A i] end.
+Definition sx_spec (s : spec) : sx :=
+  L [sx_aname (sp_name s); A (sp_dtype s); of_Zs (sp_shape s); of_Zs (sp_chunks s); L (map sx_dim (sp_dims s));
+     match sp_field s with None => L [] | Some (c, i) => L [A c; A i] end].
+Definition sx_resZ (r : res Z) : sx := match r with Ok v => L [A 1; A v] | Err e => L [A 0; A e] end.
+Definition un_params (s : sx) : option gen_params :=
+  match s with
+  | L [A m; A n; A vcs; A scs; A nc; A nf; A ma; A gs] =>
+      Some {| g_m := m; g_n := n; g_vcs := vcs; g_scs := scs; g_num_contigs := nc; g_num_filters := nf;
+              g_max_alleles := ma; g_gsize := gs |}
+  | _ => None end.
+Definition d_C10 (k : Z) (arg : sx) : sx :=
+  match k, arg with
+  | 0, L [A lo; A hi] => sx_resZ (min_int_dtype lo hi)
+  | 1, f => match un_field f with Some f => sx_resZ (smallest_dtype f) | None => err_sx 1 end
+  | 2, L [p; q; po; rl; infos; fmts; gt] =>
+      match un_params p, un_field q, un_field po, un_field rl, un_list un_field infos, un_list un_field fmts, un_list un_field gt with
+      | Some p, Some q, Some po, Some rl, Some infos, Some fmts, Some gt =>
+          match generate p q po rl infos fmts (hd_error gt) with
+          | Ok specs => L [A 1; L (map sx_spec specs); of_bool (dims_coherent_b specs)]
+          | Err e => L [A 0; A e] end
+      | _, _, _, _, _, _, _ => err_sx 1 end
+  | 3, L [A d; A v] => L [of_bool (in_dtype d v); A (cast d v)]
+  | _, _ => err_sx 2
+  end.
+
+(* ---- C13 ---- *)
+Definition un_part (s : sx) : option part :=
+  match s with L [A c; A st; A e] => Some {| p_contig := c; p_start := st; p_end := e |} | _ => None end.
+Definition sx_unit_res (r : res unit) : sx := match r with Ok _ => L [A 1] | Err e => L [A 0; A e] end.
+Definition d_C13 (k : Z) (arg : sx) : sx :=
+  match k, arg with
+  | 0, ps => match un_list un_part ps with
+             | Some l => L [of_bool (accept l); of_bool (pairwise_disjoint_b l);
+                            L (map (fun p => L [A (p_contig p); A (p_start p); A (p_end p)]) (isort l))]
+             | None => err_sx 1 end
+  | 1, L [paths; headers] => match as_ZL paths, as_ZL headers with
+                             | Some p, Some h => sx_unit_res (scan_checks p h) | _, _ => err_sx 1 end
+  | 2, L [infos; formats; A gt] => match as_ZL infos, as_ZL formats with
+                             | Some i, Some f => sx_unit_res (convert_name_checks i f (negb (gt =? 0))) | _, _ => err_sx 1 end
+  | 3, L [declared; used] => match as_ZL declared, as_ZLL used with
+                             | Some d, Some u => sx_unit_res (filters_check d u) | _, _ => err_sx 1 end
+  | _, _ => err_sx 2
   end.
 
 Definition dispatch (op : Z) (arg : sx) : sx :=
@@ -75,5 +141,7 @@ Definition dispatch (op : Z) (arg : sx) : sx :=
   match p with
   | 11 => d_C11 k arg
   | 9 => d_C09 k arg
+  | 10 => d_C10 k arg
+  | 13 => d_C13 k arg
   | _ => err_sx 3
   end.
